@@ -115,7 +115,7 @@ class ClassWorld:
         nc = len(bases)
         ops = []
         table = {
-            'C12': [('new', 4), ('newshared', 1), ('iset', 5), ('cset', 4), ('imut', 3), ('cmut', 2), ('iattr', 2), ('cattr', 1.5), ('iobj', 1.5), ('cobj', 1),
+            'C12': [('new', 4), ('newshared', 1), ('iset', 5), ('itrigger', 1.2), ('iupdctx', 1.2), ('cset', 4), ('imut', 3), ('cmut', 2), ('iattr', 2), ('cattr', 1.5), ('iobj', 1.5), ('cobj', 1),
                     ('touch', 1.5), ('lsp', 0.5), ('newdyn', 1.2)],
             'C13': [('new', 3), ('iset', 3), ('cset', 5), ('addp', 3), ('lsp', 3), ('getp', 2), ('inp', 1), ('vals', 2), ('repr', 1), ('touch', 1),
                     ('ecblock', 1.2),
@@ -624,6 +624,26 @@ class _Run:
             setattr(self.insts[i], p, v)
             self.ensure_copy(i, p)
             m['values'][p] = v
+        elif k in ('itrigger', 'iupdctx') and has_inst:
+            # neither param.trigger nor a completed `with obj.param.update(...)` block is an assignment: an instance that follows
+            # the class default goes on following it, one that holds its own value keeps it
+            m = self.im[i]
+            if p not in self.visible(m['c']) or p in ('k', 'r', 'esel', 'kn'):
+                return
+            o = self.insts[i]
+            if k == 'itrigger':
+                o.param.trigger(p)
+                for q in self.visible(m['c']):       # (looking for Event parameters it visits every instance Parameter)
+                    self.ensure_copy(i, q)
+            else:
+                v = {'n': (self.counter % 9) + 1, 'sel': ['o1', 'o2', 'o3'][self.counter % 3]}.get(p)
+                self.counter += 1
+                if v is None:
+                    v = self.new_list() if KINDS[p][1] else self.fresh_int()
+                with o.param.update(**{p: v}):
+                    pass
+            self.ensure_copy(i, p)
+            self.out.stats['probe.trigger_or_update_block_on_instance'] += 1
         elif k == 'imut' and has_inst:
             m = self.im[i]
             cand = [q for q in self.visible(m['c']) if isinstance(getattr(self.insts[i], q), list)]
